@@ -716,6 +716,9 @@ func c06(c *core.Ctx) {
 	// signers' authority. Evaluated here under their C04 keys.
 	c04(c)
 
+	c.Clause("C06.7", "a change of the registered signers survives the block: IsValuable keeps a change log unless old and new value, compared whole, are equal (clause C12.7/C07.9, evaluated here as well — a weights-only change of a signer list that is judged 'no change' is dropped before the account is saved and the old weights keep their authority)")
+	c.Run("IsValuable-whole-values", func() { c12IsValuable(c) })
+
 	c.NotDecidedf("cryptographic soundness of ECDSA recovery and of keccak/RLP; that one signature has one encoding (the canonical low-s form is decided under C04.5 for every Ecrecover consumer; D6, repaired)")
 	c.NotDecidedf("what the executors (EVM, asset, vote, candidate code) do with the authority of the sender once the transaction is authorised; contracts moving funds of accounts that called them")
 	c.NotDecidedf("JSON/RLP re-encodings of a transaction, the temp-address derivation arithmetic of verifyTempAddress, correctness of Signers.ToSignerMap")
